@@ -38,6 +38,8 @@ RelQueries == { Q("$", <<Child(SName(x_))>>), Q("$", <<Child(SName(y_))>>), Q("$
                 Q("$", <<Child(SName(q_))>>), Q("$", <<Child(SName(q_)), Child(SName(p_))>>), Q("$", <<Child(SName(q_)), Child(SName(q_)), Child(SIndex(0))>>),
                 Q("$", <<Child(SName(y_)), Seg(FALSE, <<SIndex(2), SIndex(10)>>)>>), Q("$", <<Child(SName(y_)), Child(SSlice(<<8>>, <<12>>, <<>>))>>),
                 \* negative indices address the same elements as their normalized spelling
+                \* a member and something inside it (one selection below another: see Nested)
+                Q("$", <<Child(SName(b_)), Child(SIndex(1)), Child(SName(x_))>>), Q("$", <<Child(SName(z_))>>),
                 Q("$", <<Child(SName(<<233>>))>>), Q("$", <<Child(SName(y_)), Child(SIndex(-1))>>), Q("$", <<Child(SIndex(-1))>>), Q("$", <<Child(SIndex(-1)), Child(SName(x_))>>) }
 
 Matches == Eval(mq, DocSeq[d])
@@ -77,4 +79,12 @@ Out(style) == LET ps == [i \in 1..Len(Matches) |-> Project(style, Matches[i].loc
 Export == (Terminal /\ InUniverse) =>
    PrintT(ToJson([doc |-> DocSeq[d], match |-> Render(mq, StdStyle), rels |-> [i \in 1..Len(rels) |-> Render(rels[i], [StdStyle EXCEPT !.rootless = (i % 2 = 0), !.uni = TRUE])],
                   flat |-> Out("flat"), relative |-> Out("relative"), root |-> Out("root"), nsel |-> [i \in 1..Len(Matches) |-> Len(sels[i])]]))
+\* Outside the universe only because one selection lies below another (a member and something inside it): the nested forms of the
+\* projection are then not determined by the property, but its flat form is (the selected values in selection order), and so is
+\* its last clause - the document is not modified - which the harness checks under all three styles.
+Nested == /\ \A i \in 1..Len(Matches) : Ascending(sels[i]) /\ \A j \in 1..Len(sels[i]) : sels[i][j].loc # <<>>
+          /\ \E i \in 1..Len(Matches) : ~Admissible(sels[i])
+ExportNested == (Terminal /\ Nested) =>
+   PrintT(ToJson([nested |-> TRUE, doc |-> DocSeq[d], match |-> Render(mq, StdStyle), rels |-> [i \in 1..Len(rels) |-> Render(rels[i], [StdStyle EXCEPT !.rootless = (i % 2 = 0), !.uni = TRUE])],
+                  flat |-> Out("flat"), nsel |-> [i \in 1..Len(Matches) |-> Len(sels[i])]]))
 =============================================================================
